@@ -1,0 +1,106 @@
+//! Verification hooks (only compiled with `--cfg bgpfu_verif`).
+//!
+//! Lets a harness start the real daemon loop ([`crate::task::Loop::start`]) with a scripted job
+//! outcome instead of a NETCONF/IRRd round trip, so that the timer / back-off / signal logic can be
+//! driven under tokio's paused clock.
+use std::{
+    collections::VecDeque,
+    num::NonZeroU64,
+    sync::{Mutex, OnceLock},
+    time::Duration,
+};
+
+use crate::{
+    cli::{IrrdOpts, JunosOpts},
+    netconf::Local,
+    task::Updater,
+};
+
+/// One scripted job: how long it runs (virtual seconds) and whether it succeeds.
+#[derive(Debug, Clone, Copy)]
+pub struct Job {
+    pub duration: Duration,
+    pub ok: bool,
+}
+
+/// Event recorded by the scripted job.
+#[derive(Debug, Clone, Copy)]
+pub enum Event {
+    /// A job started at the given instant.
+    Started(tokio::time::Instant),
+    /// A job finished at the given instant with the given outcome.
+    Finished(tokio::time::Instant, bool),
+}
+
+#[derive(Debug, Default)]
+struct Script {
+    jobs: VecDeque<Job>,
+    log: Vec<Event>,
+    default_ok: bool,
+}
+
+fn script() -> &'static Mutex<Option<Script>> {
+    static SCRIPT: OnceLock<Mutex<Option<Script>>> = OnceLock::new();
+    SCRIPT.get_or_init(|| Mutex::new(None))
+}
+
+/// Install a script; jobs beyond the end of `jobs` take no time and have outcome `default_ok`.
+pub fn install(jobs: Vec<Job>, default_ok: bool) {
+    *script().lock().unwrap() = Some(Script {
+        jobs: jobs.into(),
+        log: Vec::new(),
+        default_ok,
+    });
+}
+
+/// Remove the script and return the recorded events.
+pub fn take_log() -> Vec<Event> {
+    script()
+        .lock()
+        .unwrap()
+        .as_mut()
+        .map(|s| std::mem::take(&mut s.log))
+        .unwrap_or_default()
+}
+
+/// Remove the script.
+pub fn uninstall() {
+    *script().lock().unwrap() = None;
+}
+
+pub(crate) async fn scripted_job() -> Option<anyhow::Result<()>> {
+    let job = {
+        let mut guard = script().lock().unwrap();
+        let script = guard.as_mut()?;
+        script.log.push(Event::Started(tokio::time::Instant::now()));
+        script.jobs.pop_front().unwrap_or(Job {
+            duration: Duration::ZERO,
+            ok: script.default_ok,
+        })
+    };
+    if !job.duration.is_zero() {
+        tokio::time::sleep(job.duration).await;
+    }
+    if let Some(script) = script().lock().unwrap().as_mut() {
+        script
+            .log
+            .push(Event::Finished(tokio::time::Instant::now(), job.ok));
+    }
+    Some(if job.ok {
+        Ok(())
+    } else {
+        Err(anyhow::anyhow!("scripted job failure"))
+    })
+}
+
+/// Run the real daemon loop with the given period (seconds).
+pub async fn daemon_loop(period: NonZeroU64) -> anyhow::Result<()> {
+    Updater::new(
+        Local,
+        IrrdOpts::verif_new("127.0.0.1".to_string(), 1),
+        JunosOpts::verif_new("bgpfu".to_string()),
+    )
+    .init_loop(period)
+    .start()
+    .await
+}
